@@ -860,6 +860,9 @@ func extractC04Submission(c *Ctx) error {
 	if err := extractC04Getters(c, files); err != nil {
 		return err
 	}
+	if err := extractC04Reassign(c); err != nil {
+		return err
+	}
 	c.P("(* x/consensus/module.go EndBlock *)")
 	c.P("Definition endblock_calls : list string := %s.", CoqStrList(calls))
 	c.P("Definition prune_every : Z := %d.", every)
@@ -1039,5 +1042,58 @@ func extractC04Getters(c *Ctx, files []*ast.File) error {
 	c.P("(* x/consensus/keeper: how the end-block loops obtain the messages of a queue *)")
 	c.P("Definition endblock_message_getters : list string := %s.", CoqStrList(out))
 	c.Info("endblock_message_getters", out)
+	return nil
+}
+
+// ---- Queue.ReassignValidator: what it writes on the stored message.  Only the packed consensus message (its assignee
+// fields, through SetAssignee) may change; a write to any other field of the queued message, or a call of one of its
+// mutators (SetElectedGasEstimate, AddGasEstimate, AddEvidence, AddSignData ...), is an unknown shape ----
+func extractC04Reassign(c *Ctx) error {
+	f, err := c.Parse("x/consensus/keeper/consensus/consensus.go")
+	if err != nil {
+		return err
+	}
+	fd := FindFunc(f, "Queue", "ReassignValidator")
+	if fd == nil {
+		return fmt.Errorf("Queue.ReassignValidator not found")
+	}
+	var writes []string
+	var bad error
+	ast.Inspect(fd.Body, func(x ast.Node) bool {
+		switch v := x.(type) {
+		case *ast.AssignStmt:
+			for _, l := range v.Lhs {
+				if se, ok := l.(*ast.SelectorExpr); ok {
+					if c.Src(l) != "msg.Msg" {
+						bad = fmt.Errorf("ReassignValidator writes %s (unknown shape: only the packed message may change)", c.Src(l))
+					}
+					_ = se
+					writes = append(writes, c.Src(v))
+				}
+			}
+		case *ast.IncDecStmt:
+			bad = fmt.Errorf("ReassignValidator: %s (unknown shape)", c.Src(v))
+		case *ast.CallExpr:
+			if se, ok := v.Fun.(*ast.SelectorExpr); ok {
+				recv, name := c.Src(se.X), se.Sel.Name
+				mut := strings.HasPrefix(name, "Set") || strings.HasPrefix(name, "Add") || strings.HasPrefix(name, "Remove") || strings.HasPrefix(name, "Clear") || strings.HasPrefix(name, "Reset")
+				switch {
+				case recv == "assignable" && name == "SetAssignee":
+					writes = append(writes, c.Src(v))
+				case name == "save" && recv == "c":
+					writes = append(writes, c.Src(v))
+				case mut && (recv == "msg" || recv == "imsg" || recv == "c"):
+					bad = fmt.Errorf("ReassignValidator calls %s (unknown shape: re-assigning a message must not touch its estimates, elected estimate, evidence or signatures)", c.Src(v))
+				}
+			}
+		}
+		return bad == nil
+	})
+	if bad != nil {
+		return bad
+	}
+	c.P("(* x/consensus/keeper/consensus/consensus.go Queue.ReassignValidator: everything it writes *)")
+	c.P("Definition reassign_writes : list string := %s.", CoqStrList(writes))
+	c.Info("reassign_writes", writes)
 	return nil
 }
